@@ -128,11 +128,64 @@ impl std::str::FromStr for VFloat { type Err = (); fn from_str(s: &str) -> Resul
 pub broadcast proof fn axiom_string_ext(a: String, b: String)
     ensures #[trigger] a@ == #[trigger] b@ ==> a == b
 {}
+// the String with a given character sequence (total inverse of the view, by extensionality)
+pub uninterp spec fn string_of(s: Seq<char>) -> String;
+#[verifier::external_body]
+pub broadcast proof fn axiom_string_of(s: Seq<char>)
+    ensures (#[trigger] string_of(s))@ == s
+{}
+// String keys in std::collections::HashMap: String's Hash/Eq are lawful; a &str key addresses the String with the same characters
+#[verifier::external_body]
+pub broadcast proof fn axiom_string_obeys_key_model()
+    ensures #[trigger] vstd::std_specs::hash::obeys_key_model::<String>()
+{}
+#[verifier::external_body]
+pub broadcast proof fn axiom_contains_str_key<V>(m: Map<String, V>, k: &str)
+    ensures #[trigger] vstd::std_specs::hash::contains_borrowed_key::<String, V, str>(m, k) <==> m.contains_key(string_of(k@))
+{}
+#[verifier::external_body]
+pub broadcast proof fn axiom_maps_str_key_to_value<V>(m: Map<String, V>, k: &str, v: V)
+    ensures #[trigger] vstd::std_specs::hash::maps_borrowed_key_to_value::<String, V, str>(m, k, v) <==> (m.contains_key(string_of(k@)) && m[string_of(k@)] == v)
+{}
+// HashMap::get_mut (no vstd specification): the returned reference addresses the stored value;
+// writing through it updates exactly that entry
+pub uninterp spec fn hm_key_mutated<K, V, Q: ?Sized>(old_m: Map<K, V>, new_m: Map<K, V>, k: &Q, v: V) -> bool;
+#[verifier::external_body]
+pub broadcast proof fn axiom_hm_deref_key_mutated<K, V>(old_m: Map<K, V>, new_m: Map<K, V>, k: &K, v: V)
+    ensures #[trigger] hm_key_mutated::<K, V, K>(old_m, new_m, k, v) <==> new_m == old_m.insert(*k, v)
+{}
+pub assume_specification<'a, K, V, S, A, Q> [std::collections::HashMap::<K, V, S, A>::get_mut] (m: &'a mut std::collections::HashMap<K, V, S, A>, k: &Q) -> (r: std::option::Option<&'a mut V>)
+where
+    A: std::alloc::Allocator,
+    K: std::cmp::Eq + std::hash::Hash + std::borrow::Borrow<Q>,
+    Q: std::marker::MetaSized + std::hash::Hash + std::cmp::Eq + ?Sized,
+    S: std::hash::BuildHasher,
+ensures
+    vstd::std_specs::hash::obeys_key_model::<K>() && vstd::std_specs::hash::builds_valid_hashers::<S>() ==> match r {
+        Some(v) => vstd::std_specs::hash::maps_borrowed_key_to_value(old(m)@, k, *v)
+                   && hm_key_mutated(old(m)@, final(m)@, k, *final(v)),
+        None => !vstd::std_specs::hash::contains_borrowed_key(old(m)@, k) && final(m)@ == old(m)@,
+    };
+pub broadcast group group_string_keys {
+    axiom_hm_deref_key_mutated,
+    axiom_string_ext, axiom_string_of, axiom_string_obeys_key_model, axiom_contains_str_key, axiom_maps_str_key_to_value,
+}
+// user / builtin functions are opaque to Verus
+#[verifier::external_type_specification]
+#[verifier::external_body]
+pub struct ExFunction(crate::function::Function);
+pub assume_specification [Function::call](f: &Function, argument: &Value) -> (r: EvalexprResultValue)
+    ensures r == fn_call_spec(*f, *argument);
+pub assume_specification [<Function as Clone>::clone](f: &Function) -> (r: Function) ensures r == *f;
+pub assume_specification [crate::function::builtin::builtin_function](identifier: &str) -> (r: Option<Function>)
+    ensures r == builtin_spec(identifier@);
+
 #[verifier::external_body]
 pub broadcast proof fn axiom_vec_value_ext(a: Vec<Value>, b: Vec<Value>)
     ensures #[trigger] a@ == #[trigger] b@ ==> a == b
 {}
 // derived PartialEq of the crate's enums (structural; floats by IEEE ==)
+pub assume_specification [<ValueType as PartialEq>::eq](a: &ValueType, b: &ValueType) -> (r: bool) ensures r == (*a == *b);
 pub assume_specification [<Value as PartialEq>::eq](a: &Value, b: &Value) -> (r: bool) ensures r == value_eq(*a, *b);
 pub assume_specification [<Operator as PartialEq>::eq](a: &Operator, b: &Operator) -> (r: bool) ensures r == op_eq(*a, *b);
 pub assume_specification [<Value as Clone>::clone](v: &Value) -> (r: Value) ensures r == *v;
